@@ -358,6 +358,15 @@ def build_classes(world):
             self._b = b
             self.verbose = verbose
 
+    # public attribute with a derived value next to the stored constructor argument `_b`
+    PObj.b = property(lambda self: 'derived<' + str(self._b) + '>')
+
+    class PSub(PObj):
+        """subclass overriding a persistence hook: `b` does not influence what it computes"""
+        @staticmethod
+        def ignore_persistence_args():
+            return ['verbose', 'debug', 'b']
+
     class PDef(AutoParameterObject):
         def __init__(self, c=1, d=None, debug=False):
             self.c = c
@@ -372,7 +381,7 @@ def build_classes(world):
         def __init__(self, tags):
             self.tags = set(tags)
 
-    for k in (PObj, PDef, PSet):
+    for k in (PObj, PSub, PDef, PSet):
         k.__module__ = 'tcw.objs'
         setattr(om, k.__name__, k)
     ret_types = {'int': int, 'float': float, 'str': str, 'bool': bool, 'dict': dict, 'list': list, 'ndarray': np.ndarray,
@@ -433,6 +442,8 @@ def build_classes(world):
             meta['name'] = c['meta_name']
         if c.get('group') and c['base'] == 'Task':
             meta['task_group'] = c['group']
+        if c.get('stray_group') and c['base'] == 'ModuleTask':
+            meta['task_group'] = c['stray_group']
         kind = c['kind']
         if kind == 'mem':
             meta['data_class'] = InMemoryData
@@ -472,7 +483,7 @@ def _vary_objs(v, rnd):
     if isinstance(v, dict) and 'class' in v:
         kw = {k: _vary_objs(x, rnd) for k, x in (v.get('kwargs') or {}).items()}
         cname = v['class'].split('.')[-1]
-        ign = {'PObj': 'verbose', 'PDef': 'debug'}.get(cname)
+        ign = {'PObj': 'verbose', 'PSub': 'verbose', 'PDef': 'debug'}.get(cname)
         if ign:
             if rnd.random() < 0.5:
                 kw[ign] = rnd.random() < 0.5
